@@ -267,3 +267,67 @@ func nativeMemoryCopyOverlap(c *Ctx, p *Prog, pk *packages.Package, tr string) i
 	c.Undecided(rule, "anchor:"+tr+" INS_MEMORY_COPY arm", p.Pos(fd.Pos()), "arm not found")
 	return 0
 }
+
+// C03 rule c-export-forms-normalised (added after probing: `(export "f" (func $impl))` as a module field was ignored,
+// the generated C had no `app_f` and did not link). wat2c decides what to export from Func.ExportName, which the
+// parser fills only for the inline form `(func $impl (export "f") ..)`. The two forms mean the same; the package
+// copies the module-level list into the field: a loop over <module>.Exports that assigns ExportName from the entry's
+// Name for entries of kind FUNC.
+func c03ExportForms(c *Ctx, p *Prog, pk *packages.Package) {
+	const rule = "c-export-forms-normalised"
+	info := pk.TypesInfo
+	readers := 0
+	var where *ast.RangeStmt
+	good := false
+	for _, name := range sortedDeclNames(pk) {
+		fd := AllFuncDecls(pk)[name]
+		if fd.Body == nil {
+			continue
+		}
+		ast.Inspect(fd.Body, func(m ast.Node) bool {
+			if se, ok := m.(*ast.SelectorExpr); ok && se.Sel.Name == "ExportName" {
+				if t := info.TypeOf(se.X); t != nil && strings.HasSuffix(strings.TrimPrefix(t.String(), "*"), "ast.Func") {
+					readers++
+				}
+			}
+			rs, ok := m.(*ast.RangeStmt)
+			if !ok || !strings.HasSuffix(types.ExprString(rs.X), ".Exports") {
+				return true
+			}
+			ev, _ := rs.Value.(*ast.Ident)
+			if ev == nil {
+				return true
+			}
+			assigns, kind := false, false
+			ast.Inspect(rs.Body, func(q ast.Node) bool {
+				switch x := q.(type) {
+				case *ast.AssignStmt:
+					if len(x.Lhs) == 1 && len(x.Rhs) == 1 {
+						if l, ok := x.Lhs[0].(*ast.SelectorExpr); ok && l.Sel.Name == "ExportName" && types.ExprString(x.Rhs[0]) == ev.Name+".Name" {
+							assigns = true
+						}
+					}
+				case *ast.BinaryExpr:
+					if t := types.ExprString(x); strings.Contains(t, ev.Name+".Kind") && strings.Contains(t, "FUNC") {
+						kind = true
+					}
+				}
+				return true
+			})
+			if assigns {
+				where = rs
+				good = kind
+			}
+			return true
+		})
+	}
+	if readers == 0 {
+		return // the package does not decide exports from the inline field
+	}
+	loc := p.Pos(pk.Syntax[0].Pos())
+	if where != nil {
+		loc = p.Pos(where.Pos())
+	}
+	c.Check(where != nil && good, rule, "wat2c: module-level exports reach Func.ExportName", loc, fmt.Sprintf("%d reads of Func.ExportName, one loop copies the function entries of the export list into it", readers),
+		"the package reads Func.ExportName (filled by the parser for the inline form only) but no loop over the module's Exports assigns it from the entries of kind FUNC: a function exported by a module-level `(export \"name\" (func $f))` gets no C symbol, and calling the export does not link")
+}
